@@ -189,6 +189,33 @@ theorem state_keys_routed :
     judged.all (fun t => t.written.all fun k => k.sect == .work || (fieldOf k).isNone ||
       (entriesOf t).any (fun e => some e.field == fieldOf k && e.route == some e.field)) = true := by decide +kernel
 
+/-! ## binary serialisation: `Serialize` / `Deserialize` of every class -/
+
+/-- over the push/pop sequences regenerated from the current source of all 20 serialised classes: `Deserialize` pops exactly
+what `Serialize` pushed — same stream, same order, same member, same loop structure -/
+theorem serialize_symmetric : serTabs.all serSymmetric = true := by decide +kernel
+
+/-- counted loops are properly bracketed in every sequence -/
+theorem serialize_brackets : serTabs.all (fun t => bracketsBalanced t.ser 0) = true := by decide +kernel
+
+/-- a reader that pops with the op list the writer pushed with restores every field exactly (bracket-free programs, any
+record, any trailing stream content) -/
+theorem serializer_round_trip {F V : Type} [DecidableEq F] (ops : List (FOp F)) (hnd : (ops.map (·.field)).Nodup)
+    (r : F → V) (ri rd : List V) (acc : F → V) (f : F) (hf : f ∈ ops.map (·.field)) :
+    deserFlat ops ((serFlat ops r).1 ++ ri, (serFlat ops r).2 ++ rd) acc f = r f :=
+  deser_ser_flat ops hnd r ri rd acc f hf
+
+/-- negation on a witness: a reader whose two pops are swapped (the mutation `grams` ↔ `specific_area`) exchanges the fields -/
+example :
+    let w : List (FOp Nat) := [⟨.dbl, 0⟩, ⟨.dbl, 1⟩]
+    let rd : List (FOp Nat) := [⟨.dbl, 1⟩, ⟨.dbl, 0⟩]
+    let r : Nat → Nat := fun f => if f = 0 then 600 else 2
+    deserFlat rd (serFlat w r) (fun _ => 0) 0 = 2 ∧ deserFlat w (serFlat w r) (fun _ => 0) 0 = 600 := by decide
+
+
+/-- non-vacuity: the tables are there and not trivial -/
+example : serTabs.length = 20 ∧ (serTabs.map (·.ser.length)).sum ≥ 250 := by decide +kernel
+
 /-! ## restoring element totals through `SOLUTION_MODIFY -totals` (`cxxNameDouble::merge_redox`) -/
 
 /-- after merging a plain element total no valence-state entry of that element remains, the element holds the merged value and
